@@ -604,6 +604,48 @@ fn check(rep: &Report, ck: &str, c: &Case) -> CheckResult {
     with_suite!(c.suite, CS => check_one::<CS>(rep, ck, c))
 }
 
+/// one count of the many-scalars check (see `run`)
+fn many_scalars_item(rep: &Report, seed: u64, k: usize) -> CheckResult {
+    let ck = "many-scalars";
+    let suite = if k % 2 == 0 { SuiteId::Sha256 } else { SuiteId::Shake256 };
+    with_suite!(suite, CS => {
+        let kp = KeyPair::<BBSplus<CS>>::generate(&[k as u8 | 1; 32], None, None).unwrap();
+        let (sk, pk) = (kp.private_key(), kp.public_key());
+        let msgs = vec![b"a".to_vec(), b"b".to_vec()];
+        let sig = Signature::<BBSplus<CS>>::sign(Some(&msgs), sk, pk, None).unwrap();
+        let proof = PoKSignature::<BBSplus<CS>>::proof_gen(pk, &sig.to_bytes(), None, None, Some(&msgs), Some(&[0])).unwrap().to_bytes();
+        let (com, _) = Commitment::<BBSplus<CS>>::commit(Some(&[b"c".to_vec()])).unwrap();
+        let com = com.to_bytes();
+        let mut st = seed ^ (k as u64) << 8;
+        let mut filler = Vec::with_capacity(32 * k);
+        for _ in 0..k {
+            filler.extend_from_slice(&crate::refimpl::scalar_bytes(&crate::props::c04::scalar_from_seed(&mut st)));
+        }
+        for (codec, honest) in [(Codec::Proof, &proof), (Codec::Commitment, &com), (Codec::ZkPok, &com[48..].to_vec())] {
+            let cut = honest.len() - 32;
+            let long = [&honest[..cut], &filler[..], &honest[cut..]].concat();
+            rep.eval(ck, 2);
+            match catch(|| decode_encode::<CS>(codec, &long)) {
+                Ok(None) => rep.class("many-scalars:refused"),
+                Ok(Some(back)) if back == long => rep.class("many-scalars:accepted-and-reproduced"),
+                Ok(Some(back)) => {
+                    return rep.fail(ck, &format!("not-canonical:{:?}:many-scalars", codec), format!("{:?} of {} octets ({} scalars spliced in before the challenge) decodes, but the object re-encodes to {} octets", codec, long.len(), k, back.len()), json!({"many_scalars": {"codec": codec, "k": k, "suite": suite.name()}}));
+                }
+                Err(p) => return rep.fail(ck, &format!("panic:{:?}:many-scalars", codec), format!("{:?} decoder panicked on {} octets: {}", codec, long.len(), p), json!({"many_scalars": {"codec": codec, "k": k, "suite": suite.name()}})),
+            }
+            // the last spliced scalar made non-canonical
+            let mut bad = long.clone();
+            let off = cut + 32 * (k - 1);
+            bad[off..off + 32].iter_mut().for_each(|x| *x = 0xff);
+            if let Ok(Some(_)) = catch(|| decode_encode::<CS>(codec, &bad)) {
+                return rep.fail(ck, &format!("forbidden-accepted:{:?}:scalar-out-of-range-far-behind", codec), format!("{:?} of {} octets whose {}-th spliced scalar is 0xff..ff is accepted", codec, bad.len(), k), json!({"many_scalars": {"codec": codec, "k": k, "suite": suite.name(), "bad_last": true}}));
+            }
+        }
+        rep.nontrivial(ck, &json!({"many-scalars": k}));
+        Ok(())
+    })
+}
+
 pub fn run(ctx: &Ctx, rep: &Report) -> Meta {
     let mut ex = vec![];
     for (k, suite) in [SuiteId::Sha256, SuiteId::Shake256].into_iter().enumerate() {
@@ -627,6 +669,15 @@ pub fn run(ctx: &Ctx, rep: &Report) -> Meta {
         rep.exhaustive("every single-bit flip, every extension by 1..=64 octets and every truncation of each honest encoding of the exhaustive-bit-flips shapes".into());
     }
     run_cases(ctx, rep, "codecs", ctx.tier.pick(160, 2000), 100, strat, |c| check(rep, "codecs", c));
+    // encodings with very many scalars: an honest proof / commitment with k canonical scalars spliced in before the
+    // challenge, for k around the 8-bit and 16-bit counts (what a decoder that counts in a narrower type, or caps an
+    // allocation, gets wrong): decoding is refused or the object re-encodes to exactly the same octets; with one
+    // non-canonical scalar (0xff..) among them it is refused
+    {
+        let ks: Vec<usize> = if ctx.tier == Tier::Thorough { vec![253, 254, 255, 256, 257, 1000, 4095, 4096, 65533, 65534, 65535, 65536, 65537, 70001, 131072, 262145] } else { vec![255, 256, 257, 4096, 65534, 65535, 65536, 65537, 70001] };
+        let seed = ctx.seed;
+        par_items(ctx, rep, "many-scalars", &ks, |&k| many_scalars_item(rep, seed, k));
+    }
     // volume: relation (1) for many thousand API-produced objects (a decoder pre-check that is off by one refuses one
     // honest signature in a few hundred or thousand, depending on an octet of the point or scalar)
     {
@@ -695,7 +746,7 @@ pub fn run(ctx: &Ctx, rep: &Report) -> Meta {
                relation (1) decode(encode(x)) = x for octets, public-key coordinates and serde_json (read back with from_str, from_value, from_reader and from_slice), also in volume (9600 quick / 120000 thorough signatures under fresh random keys, a quarter of them with proof, commitment, blind factor and blind signature); relation (2) on honest encodings, single-bit flips (all bits in exhaustive-bit-flips, 48 sampled otherwise), \
                whole-scalar extensions / truncations, other valid points, r-1, 0: decode(b) = Ok(x) implies encode(x) = b; relation (3) forbidden classes are rejected: trailing bytes 1..=64, every truncation, the uncompressed form of a point spliced in place of the compressed one, several points of cofactor order that cancel in a sum (Abar = Q, Bbar = -Q and the like), \
                scalar in {r, r+1, r+2^k for every k, 2^256-1, 2^256-1-2^k, the honest value + r}, points with x >= p, off-curve, on-curve-but-outside-the-subgroup (found by search and classified with from_compressed_unchecked + is_torsion_free), bad flag combinations, \
-               identity as public key (compressed and coordinates), as signature point, as proof point, e = 0; primed-sequences (one thread, nothing else running): the honest key decoded by from_bytes / from_coordinates / not at all, then coordinates with single bits of y or x flipped, halves of y replaced by random octets, p or ff..ff, the negated point, x and y exchanged - accepted coordinates must re-encode to themselves - and every (160 sampled for long encodings) single-bit flip decoded right after its honest encoding; non-trivial = (codec, object) with its derived strings; evaluations = decode/encode judgements"
+               many-scalars: an honest proof / commitment / ZKPoK with k canonical scalars spliced in before the challenge for k in {255, 256, 257, 4096, 65534..65537, 70001} (thorough up to 262145): refused or reproduced octet for octet, refused when the last spliced scalar is 0xff..ff; identity as public key (compressed and coordinates), as signature point, as proof point, e = 0; primed-sequences (one thread, nothing else running): the honest key decoded by from_bytes / from_coordinates / not at all, then coordinates with single bits of y or x flipped, halves of y replaced by random octets, p or ff..ff, the negated point, x and y exchanged - accepted coordinates must re-encode to themselves - and every (160 sampled for long encodings) single-bit flip decoded right after its honest encoding; non-trivial = (codec, object) with its derived strings; evaluations = decode/encode judgements"
             .into(),
         assumptions: vec![
             "JSON is held to relation (1) only (JSON text is not canonical by nature)".into(),
@@ -722,6 +773,10 @@ pub fn replay(_ctx: &Ctx, rep: &Report, ck: &str, case: &Value) -> CheckResult {
         };
         let re = with_suite!(suite, CS => decode_encode::<CS>(codec, &oct));
         return if re.as_deref() == Some(&oct[..]) { Ok(()) } else { Err(Fail { check: ck.into(), site: format!("roundtrip:{}", what), msg: "the recorded API-produced octets are refused or re-encode differently".into(), case: case.clone() }) };
+    }
+    if ck == "many-scalars" {
+        let k = case["many_scalars"]["k"].as_u64().ok_or_else(|| Fail { check: ck.into(), site: "replay-parse".into(), msg: "many_scalars.k missing".into(), case: case.clone() })? as usize;
+        return many_scalars_item(rep, _ctx.seed, k);
     }
     if ck.starts_with("libfuzzer") || ck == "byte-level-entry" {
         return crate::fuzzdrv::replay_input(rep, ck, case);
